@@ -384,8 +384,120 @@ impl SubCheck for Iter {
 }
 
 // ---------------------------------------------------------------------------------------------
+/// one step of an iterator history
+#[derive(Clone, Copy, Debug, Serialize, Deserialize)]
+pub enum ItOp {
+    Next,
+    NextBack,
+    Nth(u64),
+    NthBack(u64),
+    /// `by_ref().skip(k).next()`
+    SkipNext(u64),
+    /// `by_ref().take(k).count()`
+    TakeCount(u64),
+    /// `by_ref().rev().take(k).last()`
+    RevTakeLast(u64),
+    Len,
+}
+#[derive(Clone, Debug, Serialize, Deserialize)]
+pub struct ItHist {
+    pub start: i64,
+    pub weeks: bool,
+    pub ops: Vec<ItOp>,
+}
+pub struct IterOps;
+impl SubCheck for IterOps {
+    type Case = ItHist;
+    fn name(&self) -> &'static str {
+        "iterator_histories"
+    }
+    fn rule(&self) -> &'static str {
+        "case = (start date, days|weeks, history of up to 12 iterator operations: next, next_back, nth, nth_back, skip+next, take+count, rev+take+last, len); executed on the real iterator and on a cursor model (next yields the cursor and adds the step unless that leaves the range, next_back likewise downward, len = floor((MAX - cursor) / step)); every returned item and length compared after every step; non-trivial = some operation runs into a range limit, or the cursor crosses a year boundary"
+    }
+    fn strategy(&self) -> Option<BoxedStrategy<ItHist>> {
+        let near_end = (0i64..400, any::<bool>()).prop_map(|(d, hi)| if hi { cal::max_day() - d } else { cal::min_day() + d });
+        // around 1 January of years next to multiples of 400 / 100 / 4
+        let year_edge = (-655i64..=655, proptest::sample::select(vec![400i64, 100, 4, 1]), -1i64..=1, -12i64..=12)
+            .prop_map(|(k, m, dy, dd)| (cal::days_from_civil((k * m).clamp(-262_000, 262_000) + dy, 1, 1) + dd).clamp(cal::min_day(), cal::max_day()));
+        let start = prop_oneof![3 => near_end, 3 => year_edge, 2 => gen::day()];
+        let small = prop_oneof![6 => 0u64..30, 2 => 30u64..800];
+        let op = prop_oneof![
+            3 => Just(ItOp::Next),
+            3 => Just(ItOp::NextBack),
+            2 => small.clone().prop_map(ItOp::Nth),
+            2 => small.clone().prop_map(ItOp::NthBack),
+            2 => small.clone().prop_map(ItOp::SkipNext),
+            1 => small.clone().prop_map(ItOp::TakeCount),
+            1 => small.prop_map(ItOp::RevTakeLast),
+            2 => Just(ItOp::Len),
+        ];
+        Some((start, any::<bool>(), proptest::collection::vec(op, 1..=12)).prop_map(|(start, weeks, ops)| ItHist { start, weeks, ops }).boxed())
+    }
+    fn check(&self, c: &ItHist, obs: &mut Obs) -> Result<(), String> {
+        let step = if c.weeks { 7 } else { 1 };
+        let (lo, hi) = (cal::min_day(), cal::max_day());
+        let d = conv::date(c.start);
+        // cursor model
+        let fwd = |cur: &mut i64| if *cur + step <= hi { let v = *cur; *cur += step; Some(v) } else { None };
+        let bwd = |cur: &mut i64| if *cur - step >= lo { let v = *cur; *cur -= step; Some(v) } else { None };
+        macro_rules! drive {
+            ($it:expr) => {{
+                let mut it = $it;
+                let mut cur = c.start;
+                for (k, op) in c.ops.iter().enumerate() {
+                    let before = cur;
+                    let (got, exp): (Option<i64>, Option<i64>) = match *op {
+                        ItOp::Next => (call("next", || it.next())?.map(conv::unix_day_of), fwd(&mut cur)),
+                        ItOp::NextBack => (call("next_back", || it.next_back())?.map(conv::unix_day_of), bwd(&mut cur)),
+                        ItOp::Nth(n) => {
+                            let mut e = None;
+                            for i in 0..=n { e = fwd(&mut cur); if e.is_none() { let _ = i; break; } }
+                            (call("nth", || it.nth(n as usize))?.map(conv::unix_day_of), e)
+                        }
+                        ItOp::NthBack(n) => {
+                            let mut e = None;
+                            for _ in 0..=n { e = bwd(&mut cur); if e.is_none() { break; } }
+                            (call("nth_back", || it.nth_back(n as usize))?.map(conv::unix_day_of), e)
+                        }
+                        ItOp::SkipNext(n) => {
+                            let mut e = None;
+                            for _ in 0..=n { e = fwd(&mut cur); if e.is_none() { break; } }
+                            (call("skip.next", || it.by_ref().skip(n as usize).next())?.map(conv::unix_day_of), e)
+                        }
+                        ItOp::TakeCount(n) => {
+                            let mut cnt = 0i64;
+                            for _ in 0..n { if fwd(&mut cur).is_some() { cnt += 1 } else { break } }
+                            (Some(call("take.count", || it.by_ref().take(n as usize).count())? as i64), Some(cnt))
+                        }
+                        ItOp::RevTakeLast(n) => {
+                            let mut e = None;
+                            for _ in 0..n { match bwd(&mut cur) { Some(v) => e = Some(v), None => break } }
+                            (call("rev.take.last", || it.by_ref().rev().take(n as usize).last())?.map(conv::unix_day_of), e)
+                        }
+                        ItOp::Len => {
+                            let l = call("len", || it.len())? as i64;
+                            let (a, b) = it.size_hint();
+                            ensure!(b == Some(a) && a as i64 == l, "size_hint ({a}, {b:?}) vs len {l} at step {k}");
+                            (Some(l), Some((hi - cur) / step))
+                        }
+                    };
+                    ensure_eq!(got, exp, "step {k} ({op:?}) of the history from day {} (cursor before: {before})", c.start);
+                    obs.nt_if(matches!(op, ItOp::Next | ItOp::NextBack | ItOp::Nth(_) | ItOp::NthBack(_) | ItOp::SkipNext(_)) && exp.is_none(), "runs_into_range_limit");
+                    obs.nt_if(cal::civil_from_days(before).0 != cal::civil_from_days(cur).0, "crosses_year");
+                    obs.label_if(k > 0 && before == cur && !matches!(op, ItOp::Len), "operation_after_exhaustion");
+                }
+                // the remaining length is exact whatever happened before
+                ensure_eq!(it.len() as i64, (hi - cur) / step, "len() after the history from day {}", c.start);
+            }};
+        }
+        if c.weeks { drive!(d.iter_weeks()) } else { drive!(d.iter_days()) }
+        Ok(())
+    }
+}
+
+// ---------------------------------------------------------------------------------------------
 pub fn subs() -> Vec<Box<dyn DynSub>> {
-    vec![Box::new(DtDur), Box::new(DtPair), Box::new(DateDays), Box::new(DateDur), Box::new(Iter)]
+    vec![Box::new(DtDur), Box::new(DtPair), Box::new(DateDays), Box::new(DateDur), Box::new(Iter), Box::new(IterOps)]
 }
 
 pub fn run(ctx: &Ctx) {
@@ -395,5 +507,6 @@ pub fn run(ctx: &Ctx) {
     ctx.run_prop(&DateDays, n);
     ctx.run_prop(&DateDur, n);
     ctx.run_prop(&Iter, ctx.n(200_000, 5_000_000));
+    ctx.run_prop(&IterOps, ctx.n(400_000, 20_000_000));
     let _ = (NaiveDate::MIN, TimeDelta::zero(), DateTime::<chrono::Utc>::UNIX_EPOCH);
 }
